@@ -472,6 +472,42 @@ func runC03(c *fw.C) {
 		if fb.err != nil {
 			c.Violation("C03.panic", ctx, "MakeRoot into the second store failed: %v", fb.err)
 		}
+		// the same with two of the library's own in-memory stores, neither written to before
+		{
+			stores := [2]mast.Persist{mast.NewInMemoryStore(), mast.NewInMemoryStore()}
+			var roots [2]*mast.Root
+			ok := true
+			for i, sp := range stores {
+				se := *tr.e
+				se.Persist = sp
+				t, err := newSide(&se)
+				if err == nil {
+					for j := range tr.s.M.Keys {
+						if err = t.ins(&se, tr.s.M.Keys[j], tr.s.M.Vals[j]); err != nil {
+							break
+						}
+					}
+				}
+				if err == nil {
+					roots[i], err = t.T.MakeRoot(se.Ctx)
+				}
+				if err != nil {
+					ok = false
+					break
+				}
+			}
+			if ok && roots[1].Link != nil {
+				c.Obs("in_memory_two_store_flushes", 1)
+				get := func(n string) ([]byte, bool) {
+					b, err := stores[1].Load(tr.e.Ctx, n)
+					return b, err == nil
+				}
+				if err := ref.Reach(get, cfg.Format, *roots[1].Link, map[string]bool{}); err != nil {
+					c.Violation("C03.not_skipped_because_cached_elsewhere", map[string]string{"policy": policy, "flush": "second_in_memory_store", "cache": cfg.Cache},
+						"two fresh in-memory stores share one node cache; after persisting the same contents into both, in the second store %v", err)
+				}
+			}
+		}
 		// the same with the real S3 backend: one bucket, two key prefixes, one cache
 		fake := &s3Fake{objects: map[string][]byte{}}
 		bucket := "shared-bucket"
